@@ -82,9 +82,7 @@ def roundtrip(p):
             if FA.UNMODELLED:
                 from vp.harness import Inconclusive
                 raise Inconclusive('the pyarrow stub does not model %s' % sorted(set(FA.UNMODELLED)))
-            for w in f.writes:
-                if w > bs or w == 0:
-                    return fail(stage='dump_to_file', problem='batch of %d rows written with batch_size %d' % (w, bs), writes=f.writes)
+            # how the rows are grouped into record batches is not part of the statement (only what the file holds): f.writes is kept in failure details only
             got = []
             end = []
             src_, kw2 = ('x.parquet', dict(open_obj=lambda name, mode='rb', **k: f)) if bypath else (f, {})
@@ -155,7 +153,7 @@ def big(p):
             done = []
             D.src(rows).pipe(P.dump_to_file(holder, FA.FSchema(['a', 'b']), batch_size=bs)).subscribe(on_error=lambda e: done.append(('ERR', repr(e))), on_completed=lambda: done.append('C'))
             written = [dict(a=r[0], b=r[1]) for r in holder.rows]
-            if done != ['C'] or written != rows or not holder.writer_closed or any(w > bs or w == 0 for w in holder.writes):
+            if done != ['C'] or written != rows or not holder.writer_closed:
                 return fail(stage='dump_to_file', n=n, dump_batch=bs, observed_rows=len(written), writes=holder.writes, done=done)
             got = []
             P.load_from_file(holder, batch_size=lb).subscribe(on_next=got.append, on_error=lambda e: got.append(('ERR', repr(e))), scheduler=ImmediateScheduler())
